@@ -110,6 +110,11 @@ func (g *gen) subject(r *hx.Rng) map[string]interface{} {
 		s["a8"] = []interface{}{g.object(r, 1, false), g.object(r, 1, true)}
 	}
 
+	// a claim whose term the context maps to a BLANK-NODE identifier ("b0": "_:b0")
+	if r.Intn(3) == 0 {
+		s["b0"] = g.fresh("level")
+	}
+
 	// arrays whose elements are node references: objects holding nothing but an id (they compact to the plain id),
 	// alone, in pairs, and mixed with strings and with ordinary objects
 	switch r.Intn(5) {
@@ -272,6 +277,16 @@ func (g *gen) signedDoc(r *hx.Rng, kind string, sd *suiteDef, idx int) (map[stri
 
 	so := signOpts{suite: sd, key: k0,
 		created: time.Date(2021, time.Month(1+r.Intn(12)), 1+r.Intn(28), r.Intn(24), r.Intn(60), r.Intn(60), 0, time.UTC)}
+
+	// a third of the documents are signed with a local time of a non-UTC zone
+	switch idx % 3 {
+	case 1:
+		so.created = so.created.In(time.FixedZone("", 2*3600))
+	case 2:
+		if idx%2 == 0 {
+			so.created = so.created.In(time.FixedZone("", -(5*3600 + 30*60)))
+		}
+	}
 
 	if r.Intn(3) != 0 {
 		so.domain = g.fresh("domain")
@@ -823,8 +838,8 @@ func (g *gen) edits(r *hx.Rng, kind string, sd *suiteDef, signed map[string]inte
 				return true
 			})
 
-			if k == "verificationMethod" || k == "created" {
-				add(fmt.Sprintf("opttype num %s#%d", k, i), "must-reject", func(d map[string]interface{}) bool {
+			{
+				add(fmt.Sprintf("opttype num %s#%d", k, i), tClass, func(d map[string]interface{}) bool {
 					m, _ := get(d, proofPath(d, i)).(map[string]interface{})
 					m[k] = json.Number("7")
 
@@ -846,6 +861,28 @@ func (g *gen) edits(r *hx.Rng, kind string, sd *suiteDef, signed map[string]inte
 				v := v
 
 				add(fmt.Sprintf("optcreatedvar %s#%d", v[0], i), crClass, func(d map[string]interface{}) bool {
+					m, _ := get(d, proofPath(d, i)).(map[string]interface{})
+					m["created"] = v[1]
+
+					return true
+				})
+			}
+		}
+
+		// the same instant written with another NON-ZERO offset, another instant, a non-zero fraction of a second
+		if t0, err := time.Parse(time.RFC3339Nano, strOf(pm["created"])); err == nil {
+			_, off := t0.Zone()
+			zone := time.FixedZone("", 2*3600)
+
+			if off == 2*3600 {
+				zone = time.FixedZone("", -(5*3600 + 30*60))
+			}
+
+			for _, v := range [][2]string{{"shift", t0.In(zone).Format(time.RFC3339)}, {"instant", t0.Add(2 * time.Hour).Format(time.RFC3339)},
+				{"fracnz", t0.Add(500 * time.Millisecond).Format(time.RFC3339Nano)}} {
+				v := v
+
+				add(fmt.Sprintf("optcreatedvar %s#%d", v[0], i), "must-reject", func(d map[string]interface{}) bool {
 					m, _ := get(d, proofPath(d, i)).(map[string]interface{})
 					m["created"] = v[1]
 
